@@ -31,6 +31,9 @@ def native_atoms(Nspin=1, Nk=2, s=(6, 5, 4), atom="He"):
         a.kpts.kmesh = [2, 1, 1]
         a.kpts.gamma_centered = False
     a.build()
+    if Nk > 1:
+        # unequal weights: a 1 / Nk in place of wk[ik] must not go unnoticed
+        a.set_k(np.asarray(a.kpts.k).copy(), [0.3, 0.7])
     return a
 
 
